@@ -520,6 +520,19 @@ Definition eval_sym (E : entry) (cargs : list (string * pyarg)) (s : sym) : pyar
   | SOther t _ => POther t
   end.
 
+(* Python truthiness of a concrete argument (what `if interoperability:` / `if not version:` read) *)
+Definition truthy (a : pyarg) : option bool :=
+  match a with
+  | PNone => Some false
+  | PBool b => Some b
+  | PStr s => Some (negb (String.eqb s ""))
+  | POther _ => None
+  end.
+
+(* the TAXII classes need a server (and the taxii2client package): they are in the table and in
+   the theorems, but stated separately and not driven by the correspondence run *)
+Definition taxii_entry (E : entry) : bool := prefix "taxii." (e_name E).
+
 Definition show_pyarg (a : pyarg) : string :=
   match a with
   | PNone => "None"
